@@ -140,6 +140,9 @@ def run(ctx):
             if "self.incidence" in a or "self.binary_incidence" in a:
                 res.ok("I-ISOL", v.fi.short, a, "from-incidence", loc(v.fi, v.fi.node))
             else:
-                res.add("I-ISOL", v.fi.short, a, "from-incidence", "violation" if "get_nodes" in a or "degree" in a else "unknown", "isolated nodes are not detected from the incidence matrix", loc(v.fi, v.fi.node))
+                # node LABELS (anything obtained from the hypergraph object) are not row indices of the incidence matrix
+                hg_params = [p_.arg for p_ in v.fi.params if p_.arg not in ("self",)]
+                from_labels = any(t in a for t in ("get_nodes", "degree", "isolated_nodes", "get_neighbors")) or any((h + ".") in a for h in hg_params)
+                res.add("I-ISOL", v.fi.short, a, "from-incidence", "violation" if from_labels else "unknown", "isolated nodes are taken from the hypergraph's node labels, not from the rows of the incidence matrix: with labels other than 0..N-1 the wrong rows are dropped", loc(v.fi, v.fi.node))
     res.assumptions += ["scipy.sparse.csr_array is introspected on a 1x1 instance of the installed library (trusted base)", "sklearn KMeans with a fixed random_state is deterministic (library)"]
     return res
